@@ -434,6 +434,31 @@ def result_fixtures():
     }
 
 
+def resave_in_place(chk: Check, col):
+    """Persist.tla history SaveResult(A) ; LoadResult(A) ; SaveResult(A) ; LoadResult(A) with DIFFERENT results: what is loaded is what was
+    saved last, not what the folder held before (in one process: nothing may remember the files of the first save)."""
+    import shutil
+    import tempfile
+    from glotaran.io import load_result, save_result
+    from . import c17_world as W
+    r1, r2 = W.make_result(nfev=2), W.make_result(nfev=5)          # different numbers of evaluations: other parameters, residuals, histories
+    td = Path(tempfile.mkdtemp(prefix="verif_c17_resave_"))
+    try:
+        target = td / "A" / "result.yml"
+        with warnings.catch_warnings():
+            warnings.simplefilter("ignore")
+            for name, r in (("first save", r1), ("second save into the same folder", r2)):
+                save_result(r, target, allow_overwrite=True)
+                loaded = load_result(target)
+                chk.evaluations += 1
+                for field, diffs in W.result_diff(r, loaded, "data_nc").items():
+                    col.add(f"Persist[LoadResult after {name}]: {field} not equal to what was saved",
+                            f"history SaveResult(A) ; LoadResult(A) ; SaveResult(A, another result) ; LoadResult(A): after the {name}: {field}: " + "; ".join(diffs[:4]),
+                            {"engine": "c17-resave"})
+    finally:
+        shutil.rmtree(td, ignore_errors=True)
+
+
 def multi_dataset_results(chk: Check, col):
     """Results with several datasets whose labels share a prefix / contain dots: every dataset must get its own file and come back
     bit-equal under its own label after the folder was moved (the single-dataset histories of Persist.tla cannot see a collision)."""
@@ -561,6 +586,7 @@ def run(chk: Check, tier: str, rng, procs: int, col):
             col.add(key, f"result of '{name}': {what}", {"engine": "c17-sweep", "fixture": name, "path": p})
     chk.extra["result_sweeps"] = len(jobs)
     multi_dataset_results(chk, col)
+    resave_in_place(chk, col)
     chk.sample({"result_fixture": jobs[-1][0], "behaviour": [e["act"] for e in jobs[-1][1]]})
 
 
@@ -608,6 +634,12 @@ def replay(chk: Check, r: dict):
                 viols, steps, _skipped = pool.map(_sweep_worker, [(r["fixture"], r["path"])])[0]
             viols = [(k, f"result of '{r['fixture']}': {w}") for k, w in viols]
             chk.evaluations += steps
+        elif r["engine"] in ("c17-resave", "c17-multi"):
+            from .c16 import Collector
+            col = Collector()
+            (resave_in_place if r["engine"] == "c17-resave" else multi_dataset_results)(chk, col)
+            col.flush(chk)
+            viols = []
         else:
             raise MachineryError(f"unknown replay engine {r.get('engine')}")
         for key, what in viols:
